@@ -102,7 +102,7 @@ def paramTypes : List (String × TypeEntry) := [
   ("tr_radius.alpha2", ⟨.float, false, .flt 0x0000000000000000, .flt 0x3FF0000000000000⟩),  -- ('float', False, 0.0, 1.0)
   ("model.abs_tol", ⟨.float, false, .flt 0x0000000000000000, .none⟩),  -- ('float', False, 0.0, None)
   ("model.rel_tol", ⟨.float, false, .flt 0x0000000000000000, .flt 0x3FF0000000000000⟩),  -- ('float', False, 0.0, 1.0)
-  ("slow.history_for_slow", ⟨.int, false, .int 0, .none⟩),  -- ('int', False, 0, None)
+  ("slow.history_for_slow", ⟨.int, false, .int 1, .none⟩),  -- ('int', False, 1, None)
   ("slow.thresh_for_slow", ⟨.float, false, .int 0, .none⟩),  -- ('float', False, 0, None)
   ("slow.max_slow_iters", ⟨.int, false, .int 0, .none⟩),  -- ('int', False, 0, None)
   ("noise.quit_on_noise_level", ⟨.bool, false, .none, .none⟩),  -- ('bool', False, None, None)
@@ -149,7 +149,7 @@ def paramTypes : List (String × TypeEntry) := [
   ("matrix_rank.r_tol", ⟨.float, false, .flt 0x0000000000000000, .none⟩),  -- ('float', False, 0.0, None)
   ("func_tol.criticality_measure", ⟨.float, false, .flt 0x0000000000000000, .flt 0x3FF0000000000000⟩),  -- ('float', False, 0.0, 1.0)
   ("func_tol.tr_step", ⟨.float, false, .flt 0x0000000000000000, .flt 0x3FF0000000000000⟩),  -- ('float', False, 0.0, 1.0)
-  ("func_tol.max_iters", ⟨.int, false, .int 0, .none⟩),  -- ('int', False, 0, None)
+  ("func_tol.max_iters", ⟨.int, false, .int 1, .none⟩),  -- ('int', False, 1, None)
   ("sfista.max_iters_scaling", ⟨.float, false, .flt 0x3FF0000000000000, .none⟩)  -- ('float', False, 1.0, None)
 ]
 
